@@ -26,6 +26,9 @@
 //!   periodic columns and assertion sequences included); [`random_desc_for`] adds field-specific
 //!   low-degree periodic columns ([`low_degree_periodic`]) and geometric columns under sequence
 //!   assertions ([`trace_generator_pow`], [`interesting_degrees`], [`sequence_interpolants`]).
+//! * [`shifted_sequence_values`] — the value polynomial of a sequence assertion evaluated under another
+//!   domain offset: the cells an adversary puts at the asserted steps to satisfy a boundary constraint built
+//!   with a wrong offset (multi-cell forgery; such a column violates the assertion and must be rejected).
 //!
 //! # Notes for users
 //! * The harness is built with debug assertions: the library then validates the trace before
@@ -2414,4 +2417,51 @@ pub fn interesting_degrees(m: usize) -> Vec<usize> {
     v.sort();
     v.dedup();
     v
+}
+
+fn shifted_sequence_values_g<B: GField>(n: usize, stride: usize, values: &[u128], d: u64) -> Vec<u128> {
+    let m = values.len();
+    let g = B::get_root_of_unity(n.ilog2());
+    let w = g.exp_u(stride as u128);
+    let w_inv = w.inv();
+    let m_inv = B::from_word(m as u128).inv();
+    let vals: Vec<B> = values.iter().map(|v| B::from_word(*v % B::MOD)).collect();
+    // coefficients by the direct inverse DFT (no library FFT): p_i = 1/m * sum_k v_k * w^(-i k)
+    let mut coef = Vec::with_capacity(m);
+    for i in 0..m {
+        let wi = w_inv.exp_u(i as u128);
+        let mut x = B::ONE;
+        let mut acc = B::ZERO;
+        for v in &vals {
+            acc += *v * x;
+            x *= wi;
+        }
+        coef.push(acc * m_inv);
+    }
+    let shift = g.exp_u(d as u128);
+    let mut out = Vec::with_capacity(m);
+    let mut x = shift;
+    for _ in 0..m {
+        let mut acc = B::ZERO;
+        for c in coef.iter().rev() {
+            acc = acc * x + *c;
+        }
+        out.push(acc.canon());
+        x *= w;
+    }
+    out
+}
+
+/// The adversary's view of a sequence assertion with `m = values.len()` values (m a power of two, `m * stride = n`):
+/// `P` is the polynomial of degree < m with `P(w^k) = values[k]`, `w = g^stride`, `g` the generator of the trace
+/// domain of `n` rows over `field`; returned are `P(g^d * w^k)` for `k = 0..m`. For `d = 0` these are the values
+/// themselves. A boundary constraint that evaluates the value polynomial under a WRONG domain offset (the
+/// library evaluates `P(x * g^-first)`; a wrong offset `g^-b` enforces `T(g^(first + k stride)) = P(g^(first - b) w^k)`)
+/// is satisfied by a column that carries these values at the asserted steps, with `d = first - b (mod n)`:
+/// `d = first` for a missing shift, `d = 2 first` for a shift in the wrong direction, `d = first - first'` for the
+/// offset of a sibling assertion. Such a column violates the assertion (unless `P` is constant or `d = 0 mod n`)
+/// and must be rejected.
+pub fn shifted_sequence_values(field: FieldId, n: usize, stride: usize, values: &[u128], d: u64) -> Vec<u128> {
+    assert!(n.is_power_of_two() && n >= 2 && !values.is_empty() && values.len() * stride == n);
+    by_field!(field, shifted_sequence_values_g, (n, stride, values, d))
 }
